@@ -200,9 +200,14 @@ type c16tReq struct {
 	Avail     bool      `json:"ports_can_be_bound"`
 	PairOK    bool      `json:"pair_loads"`
 	Kind      string    `json:"kind"`
+	// raw, when set, is the body as is (the answer of GET /control/tls/status)
+	raw []byte
 }
 
 func (mt *c16tMat) body(q *c16tReq) []byte {
+	if q.raw != nil {
+		return q.raw
+	}
 	b := map[string]any{
 		"enabled": q.S.Enabled, "server_name": q.S.Name, "force_https": q.S.Force,
 		"port_https": q.S.HTTPS, "port_dns_over_tls": q.S.DoT, "port_dns_over_quic": q.S.DoQ,
@@ -472,12 +477,16 @@ func (h *c16tHarness) runGen(out *vfOut, n int, next func(i int) *c16tReq, class
 		if outc == 2 && after.Enabled && after.PortDNSOverTLS != 0 {
 			okName := h.handshake(after.PortDNSOverTLS, h.mt.covered)
 			badName := h.handshake(after.PortDNSOverTLS, h.mt.uncovered)
-			d.Hello = fmt.Sprintf("%s accepted %v, %s accepted %v", h.mt.covered, okName, h.mt.uncovered, badName)
+			noName := h.handshake(after.PortDNSOverTLS, "")
+			d.Hello = fmt.Sprintf("%s accepted %v, %s accepted %v, no server name accepted %v", h.mt.covered, okName, h.mt.uncovered, badName, noName)
 			cl["tls-handshake"] = true
 			if okName {
 				// (a failed dial of the covered name is not judged: machine load)
 				if badName == h.init.Strict {
 					fail("handshake-strictness", fmt.Sprintf("%s: configuration strict_sni_check %v, but a handshake with the foreign name %s accepted = %v", what, h.init.Strict, h.mt.uncovered, badName))
+				}
+				if noName == h.init.Strict {
+					fail("handshake-no-name", fmt.Sprintf("%s: configuration strict_sni_check %v, but a handshake without a server name accepted = %v", what, h.init.Strict, noName))
 				}
 				if h.init.Strict {
 					cl["tls-handshake-strict"] = true
@@ -524,13 +533,55 @@ func (h *c16tHarness) resend() *c16tReq {
 	return q
 }
 
+// fromStatus is what the frontend really does: GET /control/tls/status and
+// POST the answer back to /control/tls/configure.  The request in the model's
+// terms is read from the body the way the handler decodes it.
+func (h *c16tHarness) fromStatus() *c16tReq {
+	w := httptest.NewRecorder()
+	h.m.handleTLSStatus(w, httptest.NewRequest(http.MethodGet, "/control/tls/status", nil))
+	raw := w.Body.Bytes()
+	var b struct {
+		Enabled    bool   `json:"enabled"`
+		Name       string `json:"server_name"`
+		Force      bool   `json:"force_https"`
+		HTTPS      uint64 `json:"port_https"`
+		DoT        uint64 `json:"port_dns_over_tls"`
+		DoQ        uint64 `json:"port_dns_over_quic"`
+		DNSCrypt   uint64 `json:"port_dnscrypt"`
+		File       string `json:"dnscrypt_config_file"`
+		AllowUnenc bool   `json:"allow_unencrypted_doh"`
+		Chain      string `json:"certificate_chain"`
+		Key        string `json:"private_key"`
+		CertPath   string `json:"certificate_path"`
+		KeyPath    string `json:"private_key_path"`
+		Saved      bool   `json:"private_key_saved"`
+		Serve      *bool  `json:"serve_plain_dns"`
+	}
+	if err := json.Unmarshal(raw, &b); err != nil {
+		h.t.Fatalf("c16t: status answer: %v", err)
+	}
+	chain, _ := base64.StdEncoding.DecodeString(b.Chain)
+	key, _ := base64.StdEncoding.DecodeString(b.Key)
+	return &c16tReq{
+		S: c16tSetts{
+			Enabled: b.Enabled, Name: b.Name, Force: b.Force, HTTPS: b.HTTPS, DoT: b.DoT, DoQ: b.DoQ,
+			DNSCrypt: b.DNSCrypt, File: c16tIndex(h.mt.dnscryptFile, b.File), AllowUnenc: b.AllowUnenc,
+			Chain: c16tIndex(h.mt.chain, string(chain)), Key: c16tIndex(h.mt.key, string(key)),
+			CertPath: c16tIndex(h.mt.certPath, b.CertPath), KeyPath: c16tIndex(h.mt.keyPath, b.KeyPath),
+		},
+		Saved: b.Saved, Serve: b.Serve, Kind: "status-roundtrip", raw: raw,
+	}
+}
+
 func (h *c16tHarness) gen(r *vfRand) *c16tReq {
 	mt := h.mt
 	q := h.resend()
 	q.Kind = "edit"
-	switch r.Intn(12) {
+	switch r.Intn(13) {
 	case 0:
 		return h.resend()
+	case 12:
+		return h.fromStatus()
 	case 1:
 		q.S.Name = vfPick(r, []string{"dns.test", "example.org", "", "Dns.Test"})
 	case 2:
@@ -661,6 +712,15 @@ func TestVerifC16Home(t *testing.T) {
 		// the settings in force, saved again and again
 		h := c16tNewManager(t, mt, web, base(true), true)
 		h.run(out, []*c16tReq{h.resend(), h.resend(), h.resend()}, []string{"tls-prelude", "tls-resend-strict"})
+	}
+	{
+		// GET /control/tls/status posted back as it is, twice, files and inline data
+		h := c16tNewManager(t, mt, web, base(true), true)
+		h.runGen(out, 2, func(int) *c16tReq { return h.fromStatus() }, []string{"tls-prelude", "tls-status-roundtrip-strict"})
+		s := base(true)
+		s.CertPath, s.KeyPath, s.Chain, s.Key = 0, 0, 2, 2
+		h = c16tNewManager(t, mt, web, s, true)
+		h.runGen(out, 2, func(int) *c16tReq { return h.fromStatus() }, []string{"tls-prelude", "tls-status-roundtrip-strict"})
 	}
 	{
 		// inline pair: the key is not sent back
